@@ -324,13 +324,14 @@ def run_list_prop(prop, tier, seed, only_kinds=None, harness_variant='std', coll
             # the configured bounds themselves: every successful constructor / builder chain carries the capacities, quotas
             # and sample sizes it was given (Ctor.tla, Shape)
             import extra
-            gj, gv = extra.ctor_grid('std', work, binary, prop='C01')
-            gj['kind'] = 'ctor'
-            for d in gv:
-                d['kind'] = None
-                d['what'] += ' shape=' + json.dumps((d.get('record') or {}).get('shape'))
-            jobs.append(gj)
-            viols += gv
+            for hv in ('std', 'nostd'):      # (no_std: the quotas go through src/polyfill.rs' floor)
+                gj, gv = extra.ctor_grid(hv, work, binary if hv == 'std' else vlib.build_harness('nostd'), prop='C01')
+                gj['kind'] = 'ctor'
+                for d in gv:
+                    d['kind'] = None
+                    d['what'] += ' shape=' + json.dumps((d.get('record') or {}).get('shape'))
+                jobs.append(gj)
+                viols += gv
         proofs = None
         if apa_future:
             proofs = [f.result() for f in apa_future]
